@@ -74,6 +74,8 @@ func runC01(c *Ctx) {
 	quickN := len(fams) // the thorough tier runs the quick families first, unchanged, then the deeper ones
 	if c.Thorough() {
 		fams = append(fams, []fam{
+			{name: "N2.F2.S1", n: 2, bound: vrt.Budget{F: 2, S: 1, Total: 3}, faults: base, keep: []bool{true}, phases: []byte{'S', 'N', 'O', 'H'}, kinds: []string{"p1", "p2", "sub"}},
+			{name: "manual.N2.F2.S1", n: 2, bound: vrt.Budget{F: 2, S: 1, Total: 3}, faults: base, keep: []bool{true}, phases: []byte{'S', 'N', 'O', 'C'}, kinds: []string{"p1", "p2", "sub"}, manual: true},
 			{name: "N3.F2", n: 3, bound: vrt.Budget{F: 2}, faults: conn, keep: []bool{true}, phases: []byte{'B', 'S', 'N', 'O'}, kinds: []string{"p1", "p2", "sub", "unsub"}},
 			{name: "N2.F2.all", n: 2, bound: vrt.Budget{F: 2}, faults: conn, keep: []bool{true, false}, phases: []byte{'B', 'S', 'N', 'O', 'H'}, kinds: all},
 			{name: "N2.F3", n: 2, bound: vrt.Budget{F: 3}, faults: conn, keep: []bool{true}, phases: []byte{'B', 'N', 'O'}, kinds: []string{"p1", "p2", "sub"}},
